@@ -786,7 +786,8 @@ def run(ctx):
         "order, so its float sum may differ from the serial one in the last place and depend on the schedule - recorded as a "
         "tolerance decision, not checked",
         "which recorded defects the model contains is read from known_findings/C15.json (status known => present); "
-        "the four defects of the snapshot are fixed in /repo; theorems about cfg_snapshot / drain = false are historical",
+        "the six defects of the snapshot are fixed in /repo; theorems about cfg_snapshot / cfg_round1 / drain = false are historical; "
+        "(a + b) + free-parameter sum being accepted silently is the one remaining known finding (modelled faithfully, no flag)",
         "an expression that adds to a FreeParameterAnalysis, or frees a single analysis, must raise (TypeError/AttributeError)",
         "when several analyses raise on one instance the pool may raise the exception of any of them (serial: the first)",
     ]
@@ -859,12 +860,13 @@ def run(ctx):
     # a repaired finding must stay repaired: its pinned corpus case has to satisfy the oracle
     status = {k.get("signature"): k.get("status") for k in common.load_known("C15")}
     if not ctx.replay:
-        for sig, pc in pinned:
+        for sig in sorted(set(sg for sg, _ in pinned)):
             if status.get(sig) != "fixed":
                 continue
-            idxs = [i for i, c in enumerate(cases) if c is pc]
+            idxs = [i for i, c in enumerate(cases) if any(c is pc for sg, pc in pinned if sg == sig)]
             bad = [m for i in idxs for m, _ in oracle_msgs.get(i, [("case did not run", set())])]
-            ctx.obligation("regression:" + sig, "regression", not bad, "; ".join(bad)[:400] if bad else "pinned case passes")
+            ctx.obligation("regression:" + sig, "regression", not bad,
+                           "; ".join(bad)[:400] if bad else "%d pinned case(s) pass" % len(idxs))
     if timeouts:
         # the steering harness gave up twice on the same case: the pool never delivered / never returned
         i, msg = timeouts[0]
@@ -899,8 +901,8 @@ MANIFEST = {
             "real MockSearch fits, and a direct property oracle on every generated case",
     "note": "Trusted: Coq kernel + vm_compute, the correspondence harness incl. the queue proxies that steer pool schedules. "
             "Likelihoods are integers or multiples of 1/1024 (float rounding of inexact sums in arrival order not covered); OS "
-            "scheduling is represented by availability masks; theorems about cfg_snapshot / drain=false describe the historical "
-            "snapshot, not /repo.",
+            "scheduling is represented by availability masks; theorems about cfg_snapshot / cfg_round1 / drain=false describe historical "
+            "trees, not /repo.",
     "technique": "machine-checked proof in Coq (transition-system model, induction over histories and schedules) + vm_compute "
                  "correspondence under steered schedules",
 }
